@@ -234,12 +234,26 @@ func (its *WiredDatatype) updateStateOfDatatype(
 	return oldState, its.state, err
 }
 
+// isStaleSubscribeResponse tells whether ppp answers a subscribe request of a datatype that is subscribed already,
+// i.e., a delayed or duplicated response; applying it would reset the datatype to the state of that earlier
+// response and lose the local operations issued since.
+func (its *WiredDatatype) isStaleSubscribeResponse(ppp *model.PushPullPack) bool {
+	opt := ppp.GetPushPullPackOption()
+	return !opt.HasErrorBit() && opt.HasSubscribeBit() &&
+		its.state != model.StateOfDatatype_DUE_TO_SUBSCRIBE &&
+		its.state != model.StateOfDatatype_DUE_TO_SUBSCRIBE_CREATE
+}
+
 // ApplyPushPullPack applies for PushPullPack
 func (its *WiredDatatype) ApplyPushPullPack(ppp *model.PushPullPack) {
 	defer its.L().Infof("end ApplyPushPull")
 	var oldState, newState model.StateOfDatatype
 	var errs errors.OrdaError = &errors.MultipleOrdaErrors{}
 	var opList []interface{}
+	if its.isStaleSubscribeResponse(ppp) {
+		its.L().Infof("ignore a stale subscribe response: %s", ppp.ToString(false))
+		return
+	}
 	err := its.checkOptionAndError(ppp)
 	if err == nil {
 		its.excludeDuplicatedOperations(ppp)
